@@ -53,6 +53,20 @@ def oracle(case, io, mo):
         exp = sp.at(t, x if x < s else x + (e - s))
         if sp.at(r, x) != exp:
             return f"at time {x}: active {sp.at(r, x)}, expected {exp} (before start unchanged, from end on shifted by end - start)"
+    # zero-length leaves (children of sequences): inside [start, end) gone, outside kept at their (shifted) time
+    if e > s and t[0] != "L":
+        from props.C05 import zero_leaves
+        zt = zero_leaves(t, seq_only=True)
+        zlabels = {l for (_, l) in zt}
+        zr = sorted((a, l) for (a, l) in zero_leaves(r, seq_only=True) if l in zlabels)
+        must = sorted([(a, l) for (a, l) in zt if a < s] + [(a - (e - s), l) for (a, l) in zt if a > e])
+        may = [(a - (e - s), l) for (a, l) in zt if a == e]     # exactly on the end edge: kept unless its container is removed as a whole
+        gone = [(a, l) for (a, l) in zt if s <= a < e]
+        rest = [x for x in zr if x not in must]
+        if any(x not in zr for x in must):
+            return f"zero-length events outside the removed range were lost or moved: expected {must}, got {zr}"
+        if any(x not in may for x in rest):
+            return f"zero-length events {gone} lie inside the removed range [{s}, {e}) but {[x for x in rest if x not in may]} are still there"
     # leaves strictly outside the range survive in order
     if s >= d and sp.flat(r) != sp.flat(t) and [x for x in sp.flat(r) if x[0] < x[1]] != [x for x in sp.flat(t) if x[0] < x[1]]:
         return "a range starting at or after the end changed the content"
